@@ -167,7 +167,7 @@ def samples_case(case, counters, viol, nontrivial):
                         if flag:
                             kw[name] = xp.asarray(arr)
                     if mask[3]:
-                        kw["parameters"] = ["mass", "spin_1", "phase"]
+                        kw["parameters"] = ["mass", "spin_1", "phase"] if not flat else ["mass", "θ_jn", "Δφ"]  # names are text, not ASCII
                     if case["cls"] == "SMCSamples":
                         kw.update(beta=0.25, log_evidence=-1.5 if mask[0] else None, log_evidence_error=0.1 if mask[0] else None)
                     s = C(**kw)
